@@ -206,11 +206,11 @@ def dispatch(u) -> Stats:
 def run(run: Run) -> None:
     quick = run.quick
     us: list = []
-    for n in range(1, 11):
+    for n in range(1, 11 if quick else 13):
         objects = n <= (8 if quick else 10)
         step = max(1, (1 << n) // 8)
         us += [("unary", n, i, min(i + step, 1 << n), objects) for i in range(0, 1 << n, step)]
-    for n in range(1, 7):
+    for n in range(1, 7 if quick else 8):
         step = max(1, (1 << n) // 8)
         us += [("binary", n, i, min(i + step, 1 << n)) for i in range(0, 1 << n, step)]
     tot = 4 ** 7
@@ -220,11 +220,16 @@ def run(run: Run) -> None:
     tot = 2 ** 15
     us += [("pred", 4, (0, 1), i, min(i + 2048, tot), False) for i in range(0, tot, 2048)]
     us += [("pred", 4, (0, -1), i, min(i + 2048, tot), False) for i in range(0, tot, 2048)]
+    if not quick:
+        tot = 3 ** 7
+        us += [("pred", 3, (-2, -1, 0), i, min(i + 243, tot), True) for i in range(0, tot, 243)]
+        tot = 5 ** 7
+        us += [("pred", 3, (-2, -1, 0, 1, 3), i, min(i + 3125, tot), False) for i in range(0, tot, 3125)]
     run.rule = ("every coalition for n=1..10 (unary operations, sub-/super-coalition enumeration: 3^n elements per n), every ordered pair for n<=6 "
                 "(binary operators), object API vs id-array API vs Python frozenset; predicates on ALL games over {-1,0,1,2}^7 (n=3), {0,1}^15 and "
                 "{0,-1}^15 (n=4), supermodularity on {0,1,2}^7, plus relative-1e-6 perturbations of tight grand-coalition constraints. "
                 "non-trivial = proper non-empty coalitions / distinct pairs / games where the predicates disagree with each other")
-    run.bounds = {"n_unary": [1, 10], "n_binary": [1, 6], "object_enumeration_up_to_n": 8 if quick else 10}
+    run.bounds = {"n_unary": [1, 10 if quick else 12], "n_binary": [1, 6 if quick else 7], "object_enumeration_up_to_n": 8 if quick else 10}
     run.assumptions = ["the inside of the documented 1e-9 relative band of is_superadditive is left unconstrained"]
     run.add(fanout(dispatch, sorted(us, key=lambda u: -(u[1] + (5 if u[0] == "pred" else 0))), chunk=1))
 
